@@ -1,7 +1,7 @@
 CONSTANTS
   Mode = "readfull"
   MaxCuts = 2
-  TwoCut = {"c123", "up", "uprsrc", "down", "up0"}
+  TwoCut = {"c123", "up", "down"}
   Sim = FALSE
 INIT Init
 NEXT GenNext
